@@ -274,6 +274,10 @@ impl Check for C40 {
     }
 
     fn gen(&mut self, rng: &mut Prng, idx: u64, _tier: Tier) -> Value {
+        if idx % 16 == 7 {
+            // full (inner limit x outer limit) matrix for one nested goal
+            return json!({"kind": "nestgrid", "a": rng.range(0, 8), "m": rng.range(0, 8)});
+        }
         if idx % 16 == 15 {
             // nesting grid
             let a: Vec<u64> = vec![rng.range(0, 4), rng.range(5, 12)];
@@ -316,7 +320,13 @@ impl Check for C40 {
         };
         let t0 = vh::ticks();
         vh::set_tick_budget(t0 + 400_000_000);
-        let r = if case["kind"] == "nest" { exec_nest(&mut m1, case, &mut out) } else { exec_sweep(&mut m1, &mut m2, case, &mut out) };
+        let r = if case["kind"] == "nest" {
+            exec_nest(&mut m1, case, &mut out)
+        } else if case["kind"] == "nestgrid" {
+            exec_nestgrid(&mut m1, case, &mut out)
+        } else {
+            exec_sweep(&mut m1, &mut m2, case, &mut out)
+        };
         vh::set_tick_budget(u64::MAX);
         if let Err((class, key, detail)) = r {
             out.violate(&class, key, detail);
@@ -548,4 +558,56 @@ fn clipv(v: &[String]) -> String {
     } else {
         s
     }
+}
+
+/// For one nested goal, the whole (inner limit, outer limit) matrix: for every inner limit the
+/// outer outcome is monotone in the outer limit (exceeded below a threshold, one fixed result
+/// from the threshold on).
+fn exec_nestgrid(m: &mut Mach, case: &Value, out: &mut Outcome) -> Result<(), Fail> {
+    let a = case["a"].as_u64().unwrap_or(3);
+    let mm = case["m"].as_u64().unwrap_or(3);
+    let mut h = 0xcbf29ce484222325u64;
+    let mut cells = 0u64;
+    for li in 0..=(a + 22) {
+        let mut done: Option<(u64, String)> = None;
+        for lo in 0..=(a + mm + 70) {
+            let q = format!("call_with_inference_limit((call_with_inference_limit(vh_count(0, {a}), {li}, Ri), vh_count(0, {mm})), {lo}, Ro).");
+            vh::set_tick_budget(vh::ticks() + 3_000_000);
+            let r = m.run(&q, 3);
+            vh::set_tick_budget(u64::MAX);
+            cells += 1;
+            if let Some(p) = &r.panic {
+                let class = if p.contains("TickBudgetExceeded") { "hang" } else { "panic" };
+                return Err((class.into(), format!("{}@nested-limits", panic_key(p)), format!("`{q}`: {p}")));
+            }
+            let text = r.text();
+            hash_bytes(&mut h, text.as_bytes());
+            let ro = match r.items.first() {
+                Some(Ans::Bind(b)) => binding(b, "Ro").unwrap_or("?").to_string(),
+                _ => "?".to_string(),
+            };
+            if r.items.len() != 1 || ro == "?" {
+                return Err(("wrong-result".into(), "nestgrid:answer-shape".into(), format!("`{q}` gave [{text}]")));
+            }
+            let exceeded = ro == R_EXC;
+            match &done {
+                None => {
+                    if !exceeded {
+                        done = Some((lo, text.clone()));
+                    } else {
+                        out.nontrivial = true;
+                    }
+                }
+                Some((at, first)) => {
+                    if exceeded || *first != text {
+                        return Err(("non-monotone".into(), "nestgrid:outer-limit-non-monotone".into(), format!("a={a} m={mm} inner limit {li}: outer limit {at} completes with [{first}] but larger outer limit {lo} gives [{text}]")));
+                    }
+                }
+            }
+        }
+    }
+    out.bump("nestgrid_cells", cells);
+    out.hash = h;
+    out.transcript = format!("nestgrid a={a} m={mm}: {cells} (inner, outer) limit pairs");
+    Ok(())
 }
